@@ -6,7 +6,7 @@
    2. With snapshot_every_n_steps = 0 (no snapshots: the state dict is the initial snapshot plus the number of steps) the
       whole statement C01 follows for every configuration, every k and every pair of arrival schedules. *)
 From Coq Require Import List Arith Bool Lia.
-From PD Require Import Base SdlModel SdlProofs SdlMapProofs SdlIterWorker.
+From PD Require Import Base SdlModel SdlProofs SdlMapProofs SdlIterWorker SdlFault.
 From PD Require Import SdlIterRef SdlIterProofs.
 Import ListNotations.
 Open Scope nat_scope.
@@ -356,14 +356,13 @@ Proof.
   intros w Hw. exists (a0 cyc0 w). rewrite E4, (E3 w Hw), (wst_a0 c cyc0 wk0 w). split; [reflexivity|]. split; [lia|]. left. apply a0_cnt.
 Qed.
 
-(* (B) one more batch *)
-Lemma iter_step_good b rest s sched : Good1 (b :: rest) s ->
-  exists s' sched', sdl_next c s sched = (OBatch b, s', sched') /\ Good1 rest s'.
+(* the state right after a batch was handed out is good again *)
+Lemma good_of_post B cyc0 wk0 gw' rd' a' R' s' rest : cyc0 < W -> (forall w, w < W -> a0 cyc0 w <= nb B w) ->
+  (forall w, w < W -> Fut c B w (a0 cyc0 w) (wk0 w)) ->
+  InvC c B cyc0 gw' rd' a' R' s' -> Rest c B gw' rd' R' s' rest -> Act c gw' rd' a' s' -> InvS c B (m_ny s') gw' rd' s' ->
+  InvW c cyc0 wk0 gw' rd' a' s' -> InvX c B cyc0 wk0 gw' rd' s' -> PostH c B gw' rd' s' -> Good1 rest s'.
 Proof.
-  intros (B & cyc0 & wk0 & gw & rd & a & R & Hc0 & Ha0 & Hf0 & H & HR & HA & HS & HWw & HX & _).
-  destruct (sdl_next_iter c Hkind HW HP B cyc0 Hc0 wk0 gw rd a R s (b :: rest) sched H HR HA HS HWw HX)
-    as (s' & sched' & gw' & rd' & a' & R' & E & H' & HR' & HA' & HS' & Eny & HW' & HX' & HP').
-  exists s', sched'. split; [exact E|].
+  intros Hc0 Ha0 Hf0 H' HR' HA' HS' HW' HX' HP'.
   exists B, cyc0, wk0, gw', rd', a', R'. split; [exact Hc0|]. split; [exact Ha0|]. split; [exact Hf0|].
   split; [exact H'|]. split; [exact HR'|]. split; [exact HA'|]. split; [exact HS'|]. split; [exact HW'|]. split; [exact HX'|].
   destruct (HP' HI1) as (Hr0 & Psn & Pst & Pla & Pdk).
@@ -390,6 +389,29 @@ Proof.
     + intros t Ht. destruct (Nat.eq_dec t kk) as [->|Hne]; [fold u; unfold R1, c1; destruct (Nat.eqb_spec (S u) W); lia|].
       pose proof (c_mono _ _ _ _ _ _ _ _ H' t kk ltac:(lia) ltac:(lia)) as M. fold u in M. unfold R1, c1. destruct (Nat.eqb_spec (S u) W); lia.
   - intros w Hw. rewrite Psn. destruct (entry_exact B cyc0 Hc0 wk0 gw' rd' a' R' s' w H' HX' HP' Hw) as (j & Ej & Haj & Hj). exists j. auto.
+Qed.
+
+(* (B) one more batch *)
+Lemma iter_step_good b rest s sched : Good1 (b :: rest) s ->
+  exists s' sched', sdl_next c s sched = (OBatch b, s', sched') /\ Good1 rest s'.
+Proof.
+  intros (B & cyc0 & wk0 & gw & rd & a & R & Hc0 & Ha0 & Hf0 & H & HR & HA & HS & HWw & HX & _).
+  destruct (sdl_next_iter c Hkind HW HP B cyc0 Hc0 wk0 gw rd a R s (b :: rest) sched H HR HA HS HWw HX)
+    as (s' & sched' & gw' & rd' & a' & R' & E & H' & HR' & HA' & HS' & Eny & HW' & HX' & HP').
+  exists s', sched'. split; [exact E|]. exact (good_of_post B cyc0 wk0 gw' rd' a' R' s' rest Hc0 Ha0 Hf0 H' HR' HA' HS' HW' HX' HP').
+Qed.
+
+(* (B') one more next() under ANY fault schedule: the batch that is due and a good state, or StopIteration when nothing is left,
+   or the worker-died error — and a checkpoint taken after a delivered batch is as good as any *)
+Lemma iter_fault_step_good rest s cr evs fuel : Good1 rest s ->
+  exists o s' cr' evs', next_data_f fuel c s cr evs = (o, s', cr', evs') /\
+    (benignF o \/ match rest with [] => o = FO OStop | b :: rest' => o = FO (OBatch b) /\ Good1 rest' s' end).
+Proof.
+  intros (B & cyc0 & wk0 & gw & rd & a & R & Hc0 & Ha0 & Hf0 & H & HR & HA & HS & HWw & HX & _).
+  destruct (next_data_f_iter c Hkind HW HP B cyc0 Hc0 wk0 fuel gw rd a R s rest cr evs H HR HA HS HWw HX) as (o & s' & cr' & evs' & E & Hpost).
+  exists o, s', cr', evs'. split; [exact E|]. destruct Hpost as [Hb|Hpost]; [left; exact Hb|right].
+  destruct rest as [|b rest']; [exact Hpost|]. destruct Hpost as [-> (gw' & rd' & a' & R' & H' & HR' & HA' & HS' & HW' & HX' & HP')].
+  split; [reflexivity|]. exact (good_of_post B cyc0 wk0 gw' rd' a' R' s' rest' Hc0 Ha0 Hf0 H' HR' HA' HS' HW' HX' HP').
 Qed.
 
 (* (C) k more batches *)
@@ -471,6 +493,18 @@ Theorem iter_resume_chain_I1 : forall ks sched, fold_right Nat.add 0 ks <= lengt
 Proof.
   intros ks sched Hk. destruct (iter_chain_good ks (reference c) (sdl_fresh c) sched Hk iter_fresh_good) as (s' & sched' & E & G).
   rewrite E. cbn zeta. pose proof (iter_good_outcomes _ s' sched' G) as Ho. rewrite skipn_length in Ho. exact Ho.
+Qed.
+
+(* C09 + C01: the checkpoint taken after ANY batch delivered under ANY fault schedule resumes exactly in a new iterator *)
+Theorem iter_checkpoint_after_faulty_step_resumes : forall b rest s cr evs fuel s' cr' evs' sched,
+  Good1 (b :: rest) s -> next_data_f fuel c s cr evs = (FO (OBatch b), s', cr', evs') ->
+  let '(sr, sched') := sdl_resume c (state_dict s') sched in
+  outcomes c (S (length rest)) sr sched' = map OBatch rest ++ [OStop].
+Proof.
+  intros b rest s cr evs fuel s' cr' evs' sched HG E.
+  destruct (iter_fault_step_good (b :: rest) s cr evs fuel HG) as (o & s2 & cr2 & evs2 & E2 & Hp). rewrite E in E2. injection E2 as <- <- <- <-.
+  destruct Hp as [[[ws Hb]|Hb]|[_ G']]; try discriminate.
+  destruct (iter_resume_good rest s' sched G') as (sr & sched' & Er & Gr). rewrite Er. exact (iter_good_outcomes _ sr sched' Gr).
 Qed.
 
 (* a single checkpoint at any batch k *)
